@@ -311,10 +311,61 @@ def tr_parts(tier):
     return out
 
 
+# ---- transparency at the engine.io level: the ping wrapper still sends the PING -----------------------------------------
+def h_ping(t, part):
+    """development mode wraps engineio's Socket._send_ping (to report the socket's state to the admins with every ping): the
+    wrapped method must still send the PING, whoever is or is not connected"""
+    asyncio_ = part['async']
+    state = t.choice(4)
+    with notrace():
+        import engineio.socket
+        import engineio.async_socket
+        S = engineio.async_socket.AsyncSocket if asyncio_ else engineio.socket.Socket
+        saved = S._send_ping
+        pings = []
+        if asyncio_:
+            async def rec(self):
+                pings.append(self.sid)
+                return 'sent'
+        else:
+            def rec(self):
+                pings.append(self.sid)
+                return 'sent'
+        S._send_ping = rec
+        try:
+            w = worlds.SWorld(asyncio_, async_handlers=False)
+            if asyncio_:
+                async def oc(sid, environ):
+                    return None
+            else:
+                def oc(sid, environ):
+                    return None
+            w.s.on('connect', oc)
+            instrument(w, False, 'development', False)
+            w.open('e0')
+            w.open('a0')
+            if state in (1, 2):
+                w.connect('e0', '/')             # the socket's client is on an application namespace
+            if state in (2, 3):
+                w.connect('a0', ADMIN)          # an admin is watching
+            w.finish()
+            sock = S.__new__(S)
+            sock.sid = 'e0'
+            r = w.call(S._send_ping(sock))
+        finally:
+            S._send_ping = saved
+    t.reached('ping')
+    if pings != ['e0'] or r != 'sent':
+        return Fail('admin:visible:ping', 'state %s (0 idle server, 1 client connected, 2 client and admin, 3 admin only): the '
+                    'engine.io PING of the client was sent %d times (result %r)' % (state, len(pings), r))
+    return None
+
+
 CHECKS = [
     dict(name='gate', fn=h_gate, parts=gate_parts, budget={'quick': 180, 'thorough': 300}),
     dict(name='read-only', fn=h_readonly, parts=ro_parts, budget={'quick': 180, 'thorough': 300}),
     dict(name='transparency', fn=h_transparent, parts=tr_parts, budget={'quick': 180, 'thorough': 900}),
+    dict(name='ping', fn=h_ping, parts=[{'async': False}, {'async': True}], budget={'quick': 30, 'thorough': 30}),
 ]
 
 META = dict(
